@@ -266,7 +266,7 @@ def run():
     n = 4000 if quick else 40000
     opts = [["-greedy"], ["-greedy", "-size"], ["-greedy", "-partition"], ["-greedy", "-storage"],
             ["-greedy", "-no-simplification"], ["-greedy", "-length", "-push0"]]
-    cases = common.gen_cases(n, common.seed(), opts, kinds=["rule", "rule", "short", "short", "grammar", "mem", "split"],
+    cases = common.gen_cases(n, common.seed(), opts, kinds=["rule", "rule", "short", "short", "grammar", "mem", "split", "tiny", "tiny", "identity"],
                              extra={"small_bound": 6 if quick else 7, "budget": 120000 if quick else 400000})
     col = common.Collector(r)
     st = common.run_pool("monitors.c16:handle", cases, col, cpu_budget=60.0)
